@@ -5341,15 +5341,6 @@ class PyCdlib:
         if boot_dirrecord.inode is None:
             raise pycdlibexception.PyCdlibInternalError('Tried to add an empty boot dirrecord inode to the El Torito boot catalog')
 
-        if boot_info_table:
-            orig_len = boot_dirrecord.get_data_length()
-            bi_table = eltorito.EltoritoBootInfoTable()
-            with inode.InodeOpenData(boot_dirrecord.inode, self.logical_block_size) as (data_fp, data_len):
-                bi_table.new(self.pvd, boot_dirrecord.inode, orig_len,
-                             self._calculate_eltorito_boot_info_table_csum(data_fp, data_len))
-
-            boot_dirrecord.inode.add_boot_info_table(bi_table)
-
         system_type = 0
         if media_name == 'hdemul':
             with inode.InodeOpenData(boot_dirrecord.inode, self.logical_block_size) as (data_fp, data_len):
@@ -5359,6 +5350,8 @@ class PyCdlib:
                 system_type = eltorito.hdmbrcheck(disk_mbr, sector_count,
                                                   bootable)
 
+        # Everything that can refuse the request happens before the first
+        # change is made, so that a refused call leaves the ISO untouched.
         num_bytes_to_add = 0
         if self.eltorito_boot_catalog is not None:
             # An El Torito Boot Catalog already exists; add a new section.
@@ -5367,23 +5360,6 @@ class PyCdlib:
                                                    media_name, system_type, efi,
                                                    bootable, platform_id)
         else:
-            # Step 2.
-            br = headervd.BootRecord()
-            br.new(b'EL TORITO SPECIFICATION')
-            self.brs.append(br)
-            # On a UDF ISO, adding a new Boot Record doesn't actually increase
-            # the size, since there are a bunch of gaps at the beginning.
-            if not self._has_udf:
-                num_bytes_to_add += self.logical_block_size
-
-            # Step 3.
-            self.eltorito_boot_catalog = eltorito.EltoritoBootCatalog(br)
-            self.eltorito_boot_catalog.new(br, boot_dirrecord.inode,
-                                           sector_count, boot_load_seg,
-                                           media_name, system_type, platform_id,
-                                           bootable)
-
-            # Step 4.
             rrname = ''
             if self.rock_ridge:
                 if rr_bootcatname is None:
@@ -5391,10 +5367,41 @@ class PyCdlib:
                 else:
                     rrname = rr_bootcatname
 
+            self._check_new_paths(bootcatfile, rrname, joliet_bootcatfile,
+                                  udf_bootcatfile, False)
+
+            # Step 2.
+            br = headervd.BootRecord()
+            br.new(b'EL TORITO SPECIFICATION')
+
+            # Step 3.
+            boot_catalog = eltorito.EltoritoBootCatalog(br)
+            boot_catalog.new(br, boot_dirrecord.inode, sector_count,
+                             boot_load_seg, media_name, system_type,
+                             platform_id, bootable)
+
+            self.brs.append(br)
+            # On a UDF ISO, adding a new Boot Record doesn't actually increase
+            # the size, since there are a bunch of gaps at the beginning.
+            if not self._has_udf:
+                num_bytes_to_add += self.logical_block_size
+
+            self.eltorito_boot_catalog = boot_catalog
+
+            # Step 4.
             num_bytes_to_add += self._add_fp(None, self.logical_block_size,
                                              False, bootcatfile, rrname,
                                              joliet_bootcatfile,
                                              udf_bootcatfile, None, True)
+
+        if boot_info_table:
+            orig_len = boot_dirrecord.get_data_length()
+            bi_table = eltorito.EltoritoBootInfoTable()
+            with inode.InodeOpenData(boot_dirrecord.inode, self.logical_block_size) as (data_fp, data_len):
+                bi_table.new(self.pvd, boot_dirrecord.inode, orig_len,
+                             self._calculate_eltorito_boot_info_table_csum(data_fp, data_len))
+
+            boot_dirrecord.inode.add_boot_info_table(bi_table)
 
         self._finish_add(0, num_bytes_to_add)
 
